@@ -341,6 +341,11 @@ class DictV(Obj):
         self.site = site
 
 
+class DefaultDictV(DictV):
+    """collections.defaultdict: a missing key is created by calling the factory."""
+    __slots__ = ("factory",)
+
+
 class ListV(Obj):
     __slots__ = ("items", "may", "uid", "site")
 
